@@ -4,8 +4,29 @@ from . import apichecks, trie, sync, conc
 CHECKS = {}
 for _p in ("C01", "C02", "C06", "C09", "C10", "C11", "C12", "C13", "C16", "C19"):
     CHECKS[_p] = apichecks.run_plan
-for _p in ("C05", "C07", "C08", "C18"):
+for _p in ("C07", "C08", "C18"):
     CHECKS[_p] = trie.run_plan
+
+
+def _c05(pid, tier, seed):
+    """C05 has two legs: the proof-system leg (real proofs of every key of TLC-exported maps lifted to terms and
+    judged by TrieTrace) and the API leg (proofs through overlays, reopened stores, boundary keys, elided pages,
+    constrained by ApiTrace in every state)."""
+    import json, os, time
+    from . import common as C
+    t0 = time.time()
+    rc1 = trie.run_plan(pid, tier, seed)
+    extra = None
+    try:
+        extra = json.load(open(os.path.join(C.EVID, "%s.json" % pid)))["coverage"]
+        extra.pop("samples", None)
+    except Exception:
+        pass
+    rc2 = apichecks.run_plan(pid, tier, seed, extra_cov=extra, t0=t0)
+    return 1 if (rc1 or rc2) else 0
+
+
+CHECKS["C05"] = _c05
 for _p in ("C03", "C04", "C14", "C17"):
     CHECKS[_p] = sync.run_plan
 CHECKS["C15"] = conc.run_c15
